@@ -195,6 +195,22 @@ def eq(a, b):
     return d.is_const() and d.c == 0
 
 
+def eq3(a, b):
+    """three-valued comparison of linear forms: None when a side could not be reconstructed"""
+    if a is None or b is None:
+        return None
+    d = a - b
+    return d.is_const() and d.c == 0
+
+
+def check3(ctx, rid, cond, key, msg, **kw):
+    """an obligation whose left-hand side could not be reconstructed is undecided, not violated"""
+    if cond is None:
+        ctx.undecided(rid, key, 'cannot reconstruct the quantity to compare: ' + msg, fn=kw.get('fn'), at=kw.get('at'))
+        return False
+    return ctx.check(rid, bool(cond), key, msg, **kw)
+
+
 def mirrored(e, is_pos):
     """e == ntrans - p - 1 for a position expression p"""
     while e[0] == 'cast':
@@ -293,7 +309,7 @@ def run(ctx, R, R2):
         if got is None:
             ctx.undecided(R, name, 'cannot reconstruct the offset at which %s is read as a linear form over the layout atoms' % what, fn=f)
             return
-        ctx.check(R, eq(got, want), name, '%s reads at offset %s but the layout puts it at %s' % (what, got, want), fn=f, detail={'offset': repr(got), 'layout': repr(want)})
+        check3(ctx, R, eq3(got, want), name, '%s reads at offset %s but the layout puts it at %s' % (what, got, want), fn=f, detail={'offset': repr(got), 'layout': repr(want)})
 
     # ---- helpers -----------------------------------------------------------------------------
     f = need(ANY + 'ntrans_len')
@@ -315,7 +331,7 @@ def run(ctx, R, R2):
     f = need(ANY + 'total_trans_size')
     if f:
         for p in rets(f):
-            ctx.check(R, eq(rlin(p.ret()), TT), 'any:total_trans_size', 'inputs + deltas + index must occupy ntrans + ntrans*tsize + index bytes: %s' % rlin(p.ret()), fn=f)
+            check3(ctx, R, eq3(rlin(p.ret()), TT), 'any:total_trans_size', 'inputs + deltas + index must occupy ntrans + ntrans*tsize + index bytes: %s' % rlin(p.ret()), fn=f)
     # ---- any-trans accessors -----------------------------------------------------------------------
     f = need(ANY + 'sizes')
     if f:
@@ -356,7 +372,7 @@ def run(ctx, R, R2):
                     at = slice_from(x[2][0])
                     w = rlin(x[2][1])
             check_at('any:final_output', f, rlin(at) if at else None, base_any - TT - NT_OS - OS, 'the final output')
-            ctx.check(R, eq(w, OS), 'any:final_output-width', 'the final output must be read with the output width', fn=f)
+            check3(ctx, R, eq3(w, OS), 'any:final_output-width', 'the final output must be read with the output width', fn=f)
             oz = guard_val(p, lambda e: e[0] == 'bin' and e[1] == 'Eq' and eq(rlin(e[2]), OS) and e[3] == ('const', 0))
             fin = guard_val(p, lambda e: is_call(e, 'is_final_state'))
             ctx.check(R, oz == 0 and fin == 1, 'any:final_output-guard', 'a final output is stored iff the node is final and the output width is non-zero', fn=f)
@@ -365,7 +381,7 @@ def run(ctx, R, R2):
         for p in rets(f):
             fin = guard_val(p, lambda e: is_call(e, 'is_final_state'))
             want = base_any - TT - NT_OS - (OS if fin == 1 else C(0))
-            ctx.check(R, eq(rlin(p.ret()), want), 'any:end_addr:final=%s' % fin, 'the first byte of a%s any-trans node is at %s, not at %s' % (' final' if fin else ' non-final', want, rlin(p.ret())), fn=f)
+            check3(ctx, R, eq3(rlin(p.ret()), want), 'any:end_addr:final=%s' % fin, 'the first byte of a%s any-trans node is at %s, not at %s' % (' final' if fin else ' non-final', want, rlin(p.ret())), fn=f)
     f = need(ANY + 'trans_addr')
     if f:
         for p in rets(f):
@@ -373,7 +389,7 @@ def run(ctx, R, R2):
             if is_call(rv, 'unpack_delta'):
                 at = slice_from(rv[2][0])
                 check_at('any:trans_addr', f, rlin(at) if at else None, base_any - IX - NT - I_TS - TS, 'the address delta of transition i')
-                ctx.check(R, eq(rlin(rv[2][1]), TS) and rv[2][2][0] == 'field' and rv[2][2][2] == 'end', 'any:trans_addr-args', 'the delta must be read with the transition width and resolved against the node start', fn=f)
+                check3(ctx, R, eq3(rlin(rv[2][1]), TS) and rv[2][2][0] == 'field' and rv[2][2][2] == 'end', 'any:trans_addr-args', 'the delta must be read with the transition width and resolved against the node start', fn=f)
     f = need(ANY + 'input')
     if f:
         for p in rets(f):
@@ -391,7 +407,7 @@ def run(ctx, R, R2):
                 if is_call(x, 'unpack_uint'):
                     at = slice_from(x[2][0])
                     check_at('any:output', f, rlin(at) if at else None, base_any - TT - I_OS - OS, 'the output of transition i')
-                    ctx.check(R, eq(rlin(x[2][1]), OS), 'any:output-width', 'outputs must be read with the output width', fn=f)
+                    check3(ctx, R, eq3(rlin(x[2][1]), OS), 'any:output-width', 'outputs must be read with the output width', fn=f)
     f = need(ANY + 'find_input')
     if f:
         scan = {'slice': None, 'map': False, 'eq': False, 'none': False, 'form': None}
@@ -420,7 +436,7 @@ def run(ctx, R, R2):
                 if got is None:
                     ctx.undecided(R2, 'index-path:offset', 'cannot reconstruct where the index entry of byte b is read', fn=f)
                 else:
-                    ctx.check(R2, eq(got, base_any - IX + B), 'index-path:offset', 'the index entry of byte b is read at %s, the layout puts the table at %s + b' % (got, base_any - IX), fn=f)
+                    check3(ctx, R2, eq3(got, base_any - IX + B), 'index-path:offset', 'the index entry of byte b is read at %s, the layout puts the table at %s + b' % (got, base_any - IX), fn=f)
                 if absent:
                     ctx.check(R2, rv[0] == 'agg' and rv[1].endswith('::None'), 'index-path:absent', 'an index entry >= ntrans must mean "no transition"', fn=f)
                 else:
@@ -474,7 +490,7 @@ def run(ctx, R, R2):
     f = need(ONE + 'end_addr')
     if f:
         for p in rets(f):
-            ctx.check(R, eq(rlin(p.ret()), base_one - TS - OS), 'one:end_addr', 'the first byte of a one-trans node is at %s, not %s' % (base_one - TS - OS, rlin(p.ret())), fn=f)
+            check3(ctx, R, eq3(rlin(p.ret()), base_one - TS - OS), 'one:end_addr', 'the first byte of a one-trans node is at %s, not %s' % (base_one - TS - OS, rlin(p.ret())), fn=f)
     f = need(ONE + 'output')
     if f:
         for p in rets(f):
@@ -485,7 +501,7 @@ def run(ctx, R, R2):
                 if is_call(x, 'unpack_uint'):
                     at = slice_from(x[2][0])
                     check_at('one:output', f, rlin(at) if at else None, base_one - TS - OS, 'the output')
-                    ctx.check(R, eq(rlin(x[2][1]), OS), 'one:output-width', 'the output must be read with the output width', fn=f)
+                    check3(ctx, R, eq3(rlin(x[2][1]), OS), 'one:output-width', 'the output must be read with the output width', fn=f)
     f = need(ONE + 'trans_addr')
     if f:
         for p in rets(f):
@@ -493,7 +509,7 @@ def run(ctx, R, R2):
             if is_call(rv, 'unpack_delta'):
                 at = slice_from(rv[2][0])
                 check_at('one:trans_addr', f, rlin(at) if at else None, base_one - TS, 'the address delta')
-                ctx.check(R, eq(rlin(rv[2][1]), TS) and rv[2][2][0] == 'field' and rv[2][2][2] == 'end', 'one:trans_addr-args', 'the delta must be read with the transition width and resolved against the node start', fn=f)
+                check3(ctx, R, eq3(rlin(rv[2][1]), TS) and rv[2][2][0] == 'field' and rv[2][2][2] == 'end', 'one:trans_addr-args', 'the delta must be read with the transition width and resolved against the node start', fn=f)
     for ty, tag in ((ONE, 'one'), (NEXT, 'next')):
         f = need(ty + 'input')
         if f:
@@ -510,7 +526,7 @@ def run(ctx, R, R2):
     f = need(NEXT + 'end_addr')
     if f:
         for p in rets(f):
-            ctx.check(R, eq(rlin(p.ret()), START - IL), 'next:end_addr', 'the first byte of a one-trans-next node is at %s, not %s' % (START - IL, rlin(p.ret())), fn=f)
+            check3(ctx, R, eq3(rlin(p.ret()), START - IL), 'next:end_addr', 'the first byte of a one-trans-next node is at %s, not %s' % (START - IL, rlin(p.ret())), fn=f)
     f = need(NEXT + 'trans_addr')
     if f:
         for p in rets(f):
